@@ -23,7 +23,7 @@ def run_one(patch, props, slot):
         res = {}
         for p in props:
             rr = subprocess.run([os.path.join(V, 'check'), p, '--repo', d + '/repo', '--no-evidence', '--tier', 'quick'], stdout=subprocess.PIPE, stderr=subprocess.STDOUT, text=True, env=env)
-            res[p] = {'exit': rr.returncode, 'keys': re.findall(r'^  key    (\S+)', rr.stdout, re.M)[:4]}
+            res[p] = {'exit': rr.returncode if not (rr.returncode == 1 and 'VIOLATION property=' not in rr.stdout) else 3, 'keys': re.findall(r'^  key    (\S+)', rr.stdout, re.M)[:4]}
         return res
     finally:
         shutil.rmtree(d, ignore_errors=True)
